@@ -458,4 +458,51 @@ theorem full_demo_complete : FComplete (frun { fbase with body := fdemoBody } (f
 example : ((frun { fbase with body := fdemoBody } (finit fdemoProgs) (frr 30)).threads 1).results
     = [.cls 2 true true true, .disp 2 3, .attr 0 true] := by decide +kernel
 
+
+/-! ### worker objects (Tokenizer / Parser / Generator instances) are created per call -/
+
+open SqlglotModel.Threads.Workers
+
+/-- finite table fact, decided completely: every method of a class under sqlglot/dialects that returns a
+    Tokenizer / JSONPathTokenizer / Parser / Generator (by name or annotation) constructs it in the call —
+    every `return` is a direct `self.<x>_class(...)` / `super().<same>(...)` call and the method neither reads nor
+    writes an instance attribute cache — and all four factories of `Dialect` were found -/
+theorem dialect_workers_fresh_per_call : workersFreshPerCall = true := by decide
+
+/-- the worker model with the lifetime the source has -/
+def WFromSource (cfg : WCfg) : Prop := cfg.cached = !workersFreshPerCall
+
+theorem WFromSource.fresh {cfg : WCfg} (h : WFromSource cfg) : cfg.cached = false := by
+  rw [h, dialect_workers_fresh_per_call]; rfl
+
+/-- in every reachable state: names emitted by a call in flight are exactly those below its private counter, and the
+    results so far plus the sequential answers of what is left are the sequential result list -/
+theorem fresh_workers_results_prefix (cfg : WCfg) (hsrc : WFromSource cfg) (progs : Tid → List Nat) (s : WState)
+    (hr : WReach cfg (winit progs) s) (t : Tid) :
+    (s.threads t).results ++ (s.threads t).todo.map List.range = wseq (progs t) :=
+  (WInv.reach hsrc.fresh hr).fin t
+
+/-- With a fresh worker per call, every complete schedule of any number of threads calling through one shared
+    Dialect instance gives every call the names it gets when run alone (`_t0 … _t(k-1)`). -/
+theorem fresh_workers_schedule_independent (cfg : WCfg) (hsrc : WFromSource cfg) (progs : Tid → List Nat)
+    (sched : List Tid) (hc : WComplete (wrun cfg (winit progs) sched)) (t : Tid) :
+    ((wrun cfg (winit progs) sched).threads t).results = wseq (progs t) := by
+  have h := (WInv.reach hsrc.fresh (wreach_wrun (WReach.init (cfg := cfg) (s0 := winit progs)) sched)).fin t
+  simpa [wfinal, (hc t).2] using h
+
+/-- WHY: one worker cached on the shared Dialect instance — two threads, one call of size 2 each; thread 1's reset
+    lands between thread 0's two increments: thread 0 returns `_t0, _t0` (duplicate), thread 1 `_t1, _t2` (skipped) -/
+def wtwo : Tid → List Nat := fun t => if t = 0 then [2] else if t = 1 then [2] else []
+
+theorem cached_worker_breaks_results :
+    ((wrun { cached := true } (winit wtwo) [0, 0, 1, 0, 1, 1, 0, 1]).threads 0).results = [[0, 0]] ∧
+    ((wrun { cached := true } (winit wtwo) [0, 0, 1, 0, 1, 1, 0, 1]).threads 1).results = [[1, 2]] := by
+  decide +kernel
+
+/-- the same schedule with per-call workers: both calls return `_t0, _t1` -/
+example : ((wrun { cached := false } (winit wtwo) [0, 0, 1, 0, 1, 1, 0, 1]).threads 0).results = [[0, 1]] ∧
+    ((wrun { cached := false } (winit wtwo) [0, 0, 1, 0, 1, 1, 0, 1]).threads 1).results = [[0, 1]] := by decide +kernel
+
+example : WFromSource { cached := false } := by unfold WFromSource; decide
+
 end SqlglotModel.Properties.C19
